@@ -17,7 +17,8 @@ Nd(i) == Log[i]
 S(j) == [apps |-> j.apps, assets |-> j.assets, pairs |-> j.pairs, exts |-> j.exts, ctr |-> j.ctr,
          idx |-> [appName |-> Range(j.idx.appName), appShort |-> Range(j.idx.appShort), assetName |-> Range(j.idx.assetName), assetDenom |-> Range(j.idx.assetDenom)],
          gov |-> Range(j.gov), oflag |-> j.oflag, fee |-> j.fee]
-IsStep(nd) == nd.a # "Init"
+IsStep(nd) == nd.a \notin {"Init", "Resume"}      \* "Resume" = copy of an earlier node's state heading a new chunk of a big log
+IsRoot(nd) == nd.a = "Init"
 Pre(nd) == S(Log[nd.parent].st)
 Post(nd) == S(nd.st)
 
@@ -29,10 +30,10 @@ ConfStep(nd) ==
         r1 == Apply(p, nd.a, nd.args, TRUE) IN
     \/ r0.ok = nd.res.ok /\ r0.st = Post(nd)
     \/ r1.ok = nd.res.ok /\ r1.st = Post(nd)
-ConfRoot(nd) == ~IsStep(nd) => Post(nd) = St0(nd.args.profile)
+ConfRoot(nd) == IsRoot(nd) => Post(nd) = St0(nd.args.profile)
 
 StepLaw(f, nd) == IsStep(nd) => Law(f, Pre(nd), Post(nd), nd.a, nd.args, nd.res.ok)
-RootLaws(nd) == ~IsStep(nd) => StateOk(Post(nd))
+RootLaws(nd) == IsRoot(nd) => StateOk(Post(nd))
 RejectedDigest(nd) == IsStep(nd) /\ ~nd.res.ok => nd.st.digest = Log[nd.parent].st.digest
 
 Formulas == <<"Conf_Step", "Conf_Root", "ADM_IdsFresh", "ADM_IdsDistinct", "ADM_AppUnique", "ADM_AssetUnique", "ADM_PairUnique", "ADM_IndexMatches", "ADM_ExtValid",
@@ -52,7 +53,7 @@ OkAct(nd, a) == nd.a = a /\ nd.res.ok
 NoAct(nd, a) == nd.a = a /\ ~nd.res.ok
 Dev(nd) == IsStep(nd) /\ Deviates(Pre(nd), nd.a, nd.args, nd.res.ok)
 Stats == PrintT(<<"STATS", [nodes |-> NLog,
-   roots |-> Count(LAMBDA nd : ~IsStep(nd)),
+   roots |-> Count(IsRoot), resumes |-> Count(LAMBDA nd : nd.a = "Resume"),
    appsAdded |-> Count(LAMBDA nd : OkAct(nd, "AddApp")), appsRefused |-> Count(LAMBDA nd : NoAct(nd, "AddApp")),
    govTimeUpdates |-> Count(LAMBDA nd : OkAct(nd, "UpdateGovTime")),
    tokensConfigured |-> Count(LAMBDA nd : OkAct(nd, "AddAssetInApp") /\ Len(nd.args.toks) > 0), tokensRefused |-> Count(LAMBDA nd : NoAct(nd, "AddAssetInApp")),
